@@ -17,16 +17,18 @@ Inductive act :=
 | AAdd (c : nat) (t : task) (w : Z) | AFlush (c : nat) | AWait (c : nat)
 | ARel (m : Z)            (* release the parked callback whose smallest task is m; -1: none parked *)
 | ATick | AClock (d : Z)
-| AQuitGo.                (* let the flusher parked before shallQuit go on *)
+| AQuitGo                 (* let the flusher parked before shallQuit go on *)
+| AStopGo.                (* let the quitting flusher parked inside ticker.Stop() go on *)
 
 Record obs := mkObs
   { oidle : list bool; oparked : list batch; ocont : batch; oinfl : Z;
     oguard : bool; ocmd : bool; otick : bool; obenter : bool;
     obflush : bool;   (* a flusher is blocked in the enterExecution of a Flush (tick or deferred) *)
-    oqpark : bool     (* a flusher is parked before shallQuit *) }.
+    oqpark : bool;    (* a flusher is parked before shallQuit *)
+    ospark : bool     (* a flusher that decided to quit is parked inside ticker.Stop() *) }.
 
 Record case := mkCase
-  { cmaxw : Z; cinterval : Z; cbad : list task; cdrained : bool; cgateq : bool; cn : nat;
+  { cmaxw : Z; cinterval : Z; cbad : list task; cdrained : bool; cgateq : bool; cgates : bool; cn : nat;
     csteps : list (act * obs) }.
 
 Definition cfg_of (c : case) : config := mkCfg (cmaxw c) (cinterval c) (cbad c).
@@ -50,7 +52,7 @@ Definition ser_b (p : bpc) : list Z :=
   | BStart => [20] | BSelect c l => [21; zb c; l] | BGot h l => 22 :: l :: ser_batch h
   | BDec h => 23 :: ser_batch h | BConfirm h => 24 :: ser_batch h | BExec h => 25 :: ser_batch h
   | BDone => [26] | BTick f l => 27 :: l :: ser_f f | BQuit l => [28; l]
-  | BExit f => 29 :: ser_f f | BDead => [30]
+  | BExit f => 29 :: ser_f f | BDead => [30] | BStop => [31]
   end.
 Definition ser (s : state) : list Z :=
   ser_batch (cont s) ++ [csize s] ++
@@ -78,8 +80,11 @@ Definition bmin (h : batch) : Z :=
   match h with [] => -1 | t :: h' => fold_left Z.min h' t end.
 
 Definition is_quit (p : bpc) : bool := match p with BQuit _ => true | _ => false end.
+Definition is_stop (p : bpc) : bool := match p with BStop => true | _ => false end.
+(* which optional gates the executor uses in this case: before shallQuit, inside ticker.Stop *)
+Definition gates := (bool * bool)%type.
 
-Definition internal_succs (cfg : config) (gq : bool) (s : state) : list state :=
+Definition internal_succs (cfg : config) (gq : gates) (s : state) : list state :=
   flat_map (fun c =>
     match nth_error (cl s) c with
     | Some p => match gated_c p with
@@ -93,7 +98,7 @@ Definition internal_succs (cfg : config) (gq : bool) (s : state) : list state :=
     | Some p => match gated_b p with
                 | Some _ => []
                 | None =>
-                  if gq && is_quit p then [] else
+                  if (fst gq && is_quit p) || (snd gq && is_stop p) then [] else
                   match bstep cfg s b false with Some s' => [s'] | None => [] end ++
                   match p with
                   | BSelect _ _ => match bstep cfg s b true with Some s' => [s'] | None => [] end
@@ -104,7 +109,7 @@ Definition internal_succs (cfg : config) (gq : bool) (s : state) : list state :=
     end) (seq 0 (length (fl s))).
 
 (* all quiescent states reachable by internal actions; None = out of fuel *)
-Fixpoint explore (cfg : config) (gq : bool) (fuel : nat) (todo : list state) (seen : list (list Z))
+Fixpoint explore (cfg : config) (gq : gates) (fuel : nat) (todo : list state) (seen : list (list Z))
          (stable : list state) : option (list state) :=
   match fuel with
   | O => match todo with [] => Some stable | _ => None end
@@ -149,6 +154,12 @@ Definition apply_act (cfg : config) (s : state) (a : act) : state :=
     | b :: _ => exec cfg s (EvB b false)
     | [] => s
     end
+  | AStopGo =>
+    match filter (fun b => match nth_error (fl s) b with Some p => is_stop p | None => false end)
+                 (seq 0 (length (fl s))) with
+    | b :: _ => exec cfg s (EvB b false)
+    | [] => s
+    end
   end.
 
 (* ---------- projection ---------- *)
@@ -171,17 +182,19 @@ Definition is_got (p : bpc) : bool := match p with BGot _ _ => true | _ => false
 Definition is_bflush (p : bpc) : bool :=
   match p with BTick FEnter _ | BExit FEnter => true | _ => false end.
 
-Definition project (gq : bool) (s : state) : obs :=
+Definition project (gq : gates) (s : state) : obs :=
   mkObs (map is_idle (cl s)) (parked_of s) (cont s) (inflight s) (guarded s)
         (match cmd s with Some _ => true | None => false end)
         (tick s && existsb ticker_live (fl s)) (existsb is_got (fl s))
-        (existsb is_bflush (fl s)) (gq && existsb is_quit (fl s)).
+        (existsb is_bflush (fl s)) (fst gq && existsb is_quit (fl s))
+        (snd gq && existsb is_stop (fl s)).
 
 Definition obs_eqb (a b : obs) : bool :=
   list_eqb Bool.eqb (oidle a) (oidle b) && list_eqb zs_eqb (oparked a) (oparked b) &&
   zs_eqb (ocont a) (ocont b) && (oinfl a =? oinfl b) && Bool.eqb (oguard a) (oguard b) &&
   Bool.eqb (ocmd a) (ocmd b) && Bool.eqb (otick a) (otick b) && Bool.eqb (obenter a) (obenter b) &&
-  Bool.eqb (obflush a) (obflush b) && Bool.eqb (oqpark a) (oqpark b).
+  Bool.eqb (obflush a) (obflush b) && Bool.eqb (oqpark a) (oqpark b) &&
+  Bool.eqb (ospark a) (ospark b).
 
 Definition FUEL : nat := 4000.
 
@@ -192,13 +205,13 @@ Fixpoint dedup (l : list state) (seen : list (list Z)) : list state :=
   end.
 
 (* one controller step on a set of candidate states *)
-Definition macro (cfg : config) (gq : bool) (S : list state) (a : act) (o : obs) : option (list state) :=
+Definition macro (cfg : config) (gq : gates) (S : list state) (a : act) (o : obs) : option (list state) :=
   match explore cfg gq FUEL (map (fun s => apply_act cfg s a) S) [] [] with
   | None => None
   | Some st => Some (dedup (filter (fun s => obs_eqb (project gq s) o) st) [])
   end.
 
-Fixpoint follow (cfg : config) (gq : bool) (S : list state) (steps : list (act * obs)) : bool :=
+Fixpoint follow (cfg : config) (gq : gates) (S : list state) (steps : list (act * obs)) : bool :=
   match steps with
   | [] => true
   | (a, o) :: rest =>
@@ -209,10 +222,10 @@ Fixpoint follow (cfg : config) (gq : bool) (S : list state) (steps : list (act *
   end.
 
 (* the observed log is a trace of the model *)
-Definition agrees (c : case) : bool := follow (cfg_of c) (cgateq c) [init (cn c)] (csteps c).
+Definition agrees (c : case) : bool := follow (cfg_of c) (cgateq c, cgates c) [init (cn c)] (csteps c).
 
 (* what the model allows after the longest prefix it can follow (diagnostics) *)
-Fixpoint follow_diag (cfg : config) (gq : bool) (S : list state) (steps : list (act * obs)) (i : Z)
+Fixpoint follow_diag (cfg : config) (gq : gates) (S : list state) (steps : list (act * obs)) (i : Z)
   : Z * list obs :=
   match steps with
   | [] => (-1, [])
@@ -223,12 +236,12 @@ Fixpoint follow_diag (cfg : config) (gq : bool) (S : list state) (steps : list (
                | Some st => map (project gq) st | None => [] end)
     end
   end.
-Definition model_obs (c : case) : Z * list obs := follow_diag (cfg_of c) (cgateq c) [init (cn c)] (csteps c) 0.
+Definition model_obs (c : case) : Z * list obs := follow_diag (cfg_of c) (cgateq c, cgates c) [init (cn c)] (csteps c) 0.
 
 (* ---------- the property on the observed log (independent of the model) ---------- *)
 Definition nth_idle (o : obs) (c : nat) : bool := nth c (oidle o) false.
 
-Definition obs0 (n : nat) : obs := mkObs (repeat true n) [] [] 0 false false false false false false.
+Definition obs0 (n : nat) : obs := mkObs (repeat true n) [] [] 0 false false false false false false false.
 
 Definition zmem (x : Z) (l : list Z) : bool := existsb (Z.eqb x) l.
 Fixpoint nodup_z (l : list Z) : bool :=
@@ -278,7 +291,7 @@ Definition an_step (a : an) (st : act * obs) : an :=
   let cons_ok := nodup_z visible && subset_z visible started &&
                  (match pending' with [] => perm_z visible started | _ => true end) &&
                  (* pending tasks have an owner: a live flusher loop, or a flusher about to flush *)
-                 (match ocont o with [] => true | _ => oguard o || obflush o end) in
+                 (match ocont o with [] => true | _ => oguard o || obflush o || ospark o end) in
   mkAn o started returned pending' completed waits' (a_ok a && wait_ok && cons_ok).
 
 Definition analyse (c : case) : an :=
